@@ -11,8 +11,9 @@ RNG draw.  Decided on every Ok path: the UTxOs added (by the dispatch itself and
 ones, and
         total_input + sum(added amounts)  >=  total_output + min_fee + sum(fee of every added input)
 i.e. the bookkeeping that decides "covered" includes the fee of EVERY input that was added (fee_for_input is by definition
-the increase of the minimum fee the input causes).  Lovelace only: the multi-asset strategies are run with no asset
-requested (iteration over a requested bundle is outside the model); the per-asset kernels are C08's function-level claim."""
+the increase of the minimum fee the input causes).  Lovelace only: the multi-asset strategies are run with 0, 1 and 2 requested assets: one kernel pass per requested asset (its
+verdict on the asset arbitrary — the per-asset kernels are C08's function-level claim) and one for lovelace, all sharing the
+list of still available UTxOs and the running totals."""
 import itertools
 import z3
 from engine import *
@@ -29,13 +30,15 @@ def R(v, name="tmp"):
 def obligations(ctx):
     P = ctx.P
     ob = Obligation(ctx, "c08_e2_add_inputs_from_counts_every_fee", "0..2 offered UTxOs (lovelace amounts all u64 below 2^62), builder with / without inputs, totals and fees arbitrary, four strategies, every RNG draw, every kernel outcome allowed by its contract",
-                    ["TransactionBuilder::add_inputs_from"], fallback_native="e2n_c08_first_input_fee")
+                    ["TransactionBuilder::add_inputs_from"], fallback_native=["e2n_c08_first_input_fee", "e2n_c08_largest_first", "e2n_c08_random_improve"])
     agg = Engine(P)
     STRATS = ["LargestFirst", "RandomImprove", "LargestFirstMultiAsset", "RandomImproveMultiAsset"]
     nok = 0
-    for strat in STRATS:
-        for n in (0, 1, 2):
-            E = Engine(P, max_loop=n + 3)
+    for strat, n, nreq in [(st, n_, 0) for st in STRATS for n_ in (0, 1, 2)] + [(st, 2, k_) for st in STRATS[2:] for k_ in (1, 2)]:
+        if True:
+            # nreq: number of native assets the outputs request (multi-asset strategies run one kernel pass per requested asset and
+            # one for lovelace, all sharing the list of still available UTxOs and the running totals)
+            E = Engine(P, max_loop=n + nreq + 3)
             VM.install(E)
             qs = [E.sym_int("q%d" % i, "u64") for i in range(n)]
             fees = [E.sym_int("fee%d" % i, "u64") for i in range(n)]
@@ -54,7 +57,19 @@ def obligations(ctx):
                 return int(iv.path[len("txin"):]) if isinstance(iv, VLazy) and iv.path.startswith("txin") else None
 
             E.extra_intrinsics[r"TransactionBuilder::get_total_input$"] = lambda E_, c, a: VM.ok(val(tin.t))
-            E.extra_intrinsics[r"TransactionBuilder::get_total_output$"] = lambda E_, c, a: VM.ok(val(tout.t))
+            def total_output(E_, c, a, nreq=nreq):
+                if nreq == 0:
+                    return VM.ok(val(tout.t))
+                q_ = E_.fresh("requested_q"); E_.pc.append(z3.And(q_ >= 0, q_ <= U64))
+                return VM.ok(VM.mk_value(tout.t, (q_, z3.BoolVal(nreq > 1), z3.Const("requested_rest", E_.U))))
+            E.extra_intrinsics[r"TransactionBuilder::get_total_output$"] = total_output
+            def req_iter(E_, c, a, nreq=nreq):
+                m_ = VM.deref(E_, a[0])
+                if not (isinstance(m_, VStruct) and m_.name == "#AssetMap"):
+                    return NotImplemented
+                assets = VStruct("Assets", [VSeq([VStruct("()", [VLazy("asset_name%d" % k, "AssetName"), VM.bn(E_.fresh("req%d" % k))]) for k in range(nreq)], "map")])
+                return VSeq([VStruct("()", [R(VLazy("policy0", "ScriptHash")), R(assets)])], "iter")
+            E.extra_intrinsics[r"BTreeMap::<.*ScriptHash, .*Assets>::iter$"] = req_iter
             E.extra_intrinsics[r"TransactionBuilder::min_fee$"] = lambda E_, c, a: VM.ok(VM.bn(fee0))
             E.extra_intrinsics[r"TxInputsBuilder::has_inputs$"] = lambda E_, c, a: VBool(has_inputs)
 
@@ -97,8 +112,16 @@ def obligations(ctx):
                         E_.trace.append(("add", j)); E_.trace.append(("fee", j))
                         itv = itv + qs[j].t; otv = otv + fees[j].t
                     avail.items[:] = [x for x in avail.items if E_.concretize(VM.deref(E_, x).t) not in S]
-                    E_.write_at(it_ref.cell, it_ref.path, val(itv)); E_.write_at(ot_ref.cell, ot_ref.path, val(otv))
-                    if kind == "largest-first":
+                    _, it_ma = VM.value_parts(E_, VM.deref(E_, it_ref)); _, ot_ma = VM.value_parts(E_, VM.deref(E_, ot_ref))
+                    E_.write_at(it_ref.cell, it_ref.path, VM.mk_value(itv, it_ma) if it_ma is not None else val(itv))
+                    E_.write_at(ot_ref.cell, ot_ref.path, VM.mk_value(otv, ot_ma) if ot_ma is not None else val(otv))
+                    npass = sum(1 for t in E_.trace if t[0] == "pass")
+                    E_.trace.append(("pass", kind))
+                    asset_pass = npass < nreq
+                    if asset_pass:
+                        b = E_.fresh("asset_pass_ok", "bool")         # coverage of the requested asset: arbitrary here (the kernels' own obligations decide it)
+                        good = E_.choose([b, z3.Not(b)], "asset pass verdict") == 0
+                    elif kind == "largest-first":
                         good = E_.choose([itv >= otv, itv < otv], "covered") == 0
                     else:
                         b = E_.fresh("random_improve_ok", "bool")
@@ -118,7 +141,7 @@ def obligations(ctx):
             try:
                 outs = list(E.explore("TransactionBuilder::add_inputs_from", mk, max_paths=4000))
             except Unsupported as e:
-                ob.fail("%s with %d offered: cannot be executed (%s)" % (strat, n, str(e)[:160])); continue
+                ob.fail("%s with %d offered, %d assets requested: cannot be executed (%s)" % (strat, n, nreq, str(e)[:200])); continue
             for o in outs:
                 if o.kind != "return" or o.value.variant != "Ok":
                     continue            # C08 speaks about reported successes
@@ -126,7 +149,10 @@ def obligations(ctx):
                 E.enter(o)
                 added = [t[1] for t in o.trace if t[0] == "add"]
                 feed = [t[1] for t in o.trace if t[0] == "fee"]
-                what = "%s, %d offered, added %s" % (strat, n, added)
+                what = "%s, %d offered, %d assets requested, added %s" % (strat, n, nreq, added)
+                npasses = sum(1 for t in o.trace if t[0] == "pass")
+                if strat.endswith("MultiAsset") and npasses != nreq + 1:
+                    ob.violation("%s: %d kernel passes for %d requested assets + lovelace" % (what, npasses, nreq)); continue
                 if None in added or len(set(added)) != len(added):
                     ob.violation("%s: the UTxOs added are not pairwise distinct offered ones" % what); continue
                 need = tout.t + fee0.t + z3.Sum([fees[j].t for j in added] + [z3.IntVal(0)])
